@@ -9,7 +9,7 @@ GIT_ENV = {"GIT_CONFIG_GLOBAL": "/dev/null", "GIT_CONFIG_SYSTEM": "/dev/null", "
 def git(repo, *args, ts=None, check=True):
     env = dict(GIT_ENV)
     if ts is not None:
-        env["GIT_AUTHOR_DATE"] = env["GIT_COMMITTER_DATE"] = f"{ts} +0000"
+        env["GIT_AUTHOR_DATE"] = env["GIT_COMMITTER_DATE"] = f"@{ts} +0000"
     p = subprocess.run([REAL_GIT, "-c", "advice.detachedHead=false", "-c", "init.defaultBranch=main", "-c", "commit.gpgsign=false", "-c", "tag.gpgsign=false"] + list(args),
                        cwd=repo, env=env, stdout=subprocess.PIPE, stderr=subprocess.PIPE, text=True)
     if check and p.returncode != 0:
@@ -147,11 +147,21 @@ def standard_repos(root):
     # in one of the two (2-byte and 3-byte runs) - for code that cuts, pads or logs git output by bytes
     specs["long_unicode_branch2"] = [("commit", T), ("tag", "v1.0.0"), ("branch", "feat/" + "\u00e9" * 100), ("commit", T + 10)]
     specs["long_unicode_branch3"] = [("commit", T), ("tag", "v1.0.0")] + [("tag", "rel-" + "\u6f22" * 20 + f"-{i}") for i in range(6)] + [("branch", "f/" + "\u6f22" * 70), ("commit", T + 10)]
+    # commits dated far in the future (clock skew, wrong RTC, reproducible-build dates): git's dates are data, never compared with the wall clock
+    FUT = 4070908800          # 2099-01-01
+    specs["future_dated_tagged_clean"] = [("commit", FUT), ("tag", "v1.2.3")]
+    specs["future_dated_ahead"] = [("commit", T), ("tag", "v1.2.3"), ("commit", FUT), ("commit", FUT + 86400)]
     out = {}
     for name, script in specs.items():
         p = os.path.join(root, name)
         build_repo(p, script)
         out[name] = p
+    # a shallow clone (git clone --depth 2): zerv warns about it - on stderr / in the log, never on stdout
+    src = os.path.join(root, "shallow_src")
+    build_repo(src, [("commit", T), ("commit", T + 10), ("commit", T + 20), ("tag", "v1.2.3"), ("commit", T + 30)])
+    sh = os.path.join(root, "shallow_clone")
+    git(root, "clone", "-q", "--depth", "2", "file://" + src, sh)
+    out["shallow_clone"] = sh
     e = os.path.join(root, "empty_repo")
     os.makedirs(e)
     git(e, "init", "-q", "-b", "main", ".")
